@@ -90,10 +90,12 @@ package validate
 //
 //@ pred nodupE(s []error) = forall(a, 0, len(s), forall(b, 0, len(s), implies(a < b, msg(s[a]) != msg(s[b]))))
 //@ pred nonnilE(s []error) = forall(a, 0, len(s), s[a] != nil)
-//@ pred wfErrs(s []error) = nonnilE(s) && nodupE(s)
+//@ opaque pred wfErrs(s []error) = nonnilE(s) && nodupE(s)
+//@ lemma wfErrs(s) if len(s) == 0
 //@ pred hasMsg(s []error, e error) = exists(i, 0, len(s), msg(s[i]) == msg(e))
 
 //@ func (*Result).AddErrors
+//@   reveal wfErrs
 //@   requires r != nil && wfErrs(r.Errors) && ownsE(r)
 //@   requires arr(errors) != arr(r.Errors) || len(errors) == 0
 //@   modifies r.Errors, elems(r.Errors)
@@ -114,6 +116,7 @@ package validate
 //@   loop 2 invariant forall(k, 0, idx2 + 1, msg(r.Errors[k]) != msg(e))
 
 //@ func (*Result).AddWarnings
+//@   reveal wfErrs
 //@   requires r != nil && wfErrs(r.Warnings) && ownsW(r)
 //@   requires arr(warnings) != arr(r.Warnings) || len(warnings) == 0
 //@   modifies r.Warnings, elems(r.Warnings)
@@ -334,6 +337,7 @@ package validate
 
 // cleared(): a recycled Result starts from the empty view (C04: nothing of an earlier validation survives)
 //@ func (*Result).cleared
+//@   reveal wfErrs
 //@   requires r != nil
 //@   modifies all(r), mapof(r.cachedFieldSchemata), mapof(r.cachedItemSchemata)
 //@   ensures[C04,C20] implies(old(ownsArrays(r)), ownsArrays(r))
@@ -348,6 +352,7 @@ package validate
 //@   loop 2 invariant len(r.cachedFieldSchemata) == 0
 
 //@ func (resultsPool).BorrowResult
+//@   reveal wfErrs
 //@   assume p.Pool != nil
 //@   assume pooltag(p.Pool) == tidof("*Result")
 //@   assume !redeemed(emptyResult)
@@ -386,6 +391,7 @@ package validate
 //@ pred mergeableInto(r *Result, o *Result) = o != r && ownsArrays(o)
 
 //@ func (*Result).mergeWithoutRootSchemata
+//@   reveal wfErrs
 //@   requires r != nil && other != nil && wfRes(r) && mergeableInto(r, other)
 //@   modifies r.Errors, r.Warnings, r.MatchCount, r.fieldSchemata, r.itemSchemata, r.cachedFieldSchemata, r.cachedItemSchemata, elems(r.Errors), elems(r.Warnings)
 //@   modifies heap("H$fieldSchemata$obj"), heap("H$fieldSchemata$field"), heap("H$itemSchemata$slice"), heap("H$itemSchemata$index"), heap("H$schemata$one"), heap("H$schemata$multiple")
@@ -406,6 +412,7 @@ package validate
 //@ pred operandsOK(r *Result, others []*Result) = forall(j, 0, len(others), implies(others[j] != nil, !redeemed(others[j]) && mergeableInto(r, others[j]))) && forall(a, 0, len(others), forall(b, 0, len(others), implies(a < b && others[a] != nil, others[a] != others[b])))
 
 //@ func (*Result).Merge
+//@   reveal wfErrs
 //@   inline
 //@   case_len others 1 2 3
 //@   loop 1 unroll
@@ -424,6 +431,7 @@ package validate
 //@   ensures[C04] forallp(q, implies(forall(k, 0, len(others), others[k] != q), redeemed(q) == old(redeemed(q))))
 
 //@ func (*Result).MergeAsErrors
+//@   reveal wfErrs
 //@   inline
 //@   case_len others 1 2
 //@   loop 1 unroll
@@ -438,6 +446,7 @@ package validate
 //@   ensures[C04] forall(k, 0, len(others), implies(others[k] != nil && others[k] != emptyResult, redeemed(others[k]) == old(others[k].wantsRedeemOnMerge)))
 
 //@ func (*Result).MergeAsWarnings
+//@   reveal wfErrs
 //@   inline
 //@   case_len others 1 2
 //@   loop 1 unroll
@@ -463,7 +472,7 @@ package validate
 //@ axiom emptyResult != nil && !redeemed(emptyResult) && cacheMutex != nil && defaultOptsMutex != nil
 //@ validator_types SchemaValidator, itemsValidator, HeaderValidator, ParamValidator, basicCommonValidator, basicSliceValidator, numberValidator, stringValidator, typeValidator, formatValidator, schemaSliceValidator, objectValidator, schemaPropsValidator
 //@ mutable_types Result
-//@ unframed_types schemata, fieldSchemata, itemSchemata
+//@ unframed_types schemata, fieldSchemata, itemSchemata, A$*spec.Schema
 //@ pooled_types spec.Schema
 //@ owned_fields Result.Errors, Result.Warnings, Result.fieldSchemata, Result.itemSchemata, Result.cachedFieldSchemata, Result.cachedItemSchemata
 //@ owned_fields schemaPropsValidator.anyOfValidators, schemaPropsValidator.allOfValidators, schemaPropsValidator.oneOfValidators, objectValidator.splitPath
@@ -652,6 +661,7 @@ package validate
 //@ pred okResult(res *Result) = res == emptyResult || (res != nil && !redeemed(res) && fromPool(res) && wfRes(res))
 
 //@ func (*errorHelper).sErr
+//@   reveal wfErrs
 //@   effects validation
 //@   requires[C04,C06,C17] err != nil
 //@   ensures[C04,C17] result != nil && result != emptyResult && !redeemed(result) && fromPool(result) && wfRes(result)
